@@ -37,7 +37,7 @@ def plan(tier, seed):
 
 
 def unit_timeout(tier):
-    return 300 if tier == "quick" else 600
+    return 150 if tier == "quick" else 600
 
 
 def floors(tier):
